@@ -169,6 +169,32 @@ def body(chk):
         uitems.append(f"({n}%nat, ({hexf(a[0])}, {hexf(a[1])}), ({hexf(b[0])}, {hexf(b[1])}), ({flist(L)}, {flist(R)}))")
         uflat.append((site, replay))
 
+    # keyword route: the scale handed over as a keyword only (location at its default 0), two different boxes of ONE family in a row;
+    # every p-box is decided against the members of ITS OWN parameter box
+    for fam in ("exponential", "rayleigh", "logistic", "laplace", "gumbel_r"):
+        ctor = FAMILIES[fam][0]
+        dist = named_dists[ctor]
+        boxes = [gen_param(rng, "scale", "wide"), gen_param(rng, "scale", "abs"), gen_param(rng, "scale", "zero")]
+        for step, sc in enumerate(boxes):
+            arg, sp = spell(rng, sc)
+            chk.count(f"{fam}-keyword-scale", key=(fam, "kw", step, tuple(sc)))
+            replay = {"kind": "oracle", "family": fam, "call": f"pba.{ctor}(scale={list(sc)})", "earlier_calls_of_this_family": [list(b) for b in boxes[:step]], "spelling": sp}
+            try:
+                p = getattr(pba, ctor)(scale=arg)
+                L, R = np.asarray(p.left, float), np.asarray(p.right, float)
+            except TypeError:
+                break          # the constructor does not take the scale as a keyword alone
+            except Exception as e:
+                chk.report(f"parametric:{fam}:keyword", f"pba.{ctor}(scale={list(sc)}) fails: {type(e).__name__}: {str(e)[:80]}", replay)
+                continue
+            for th in members(rng, [(0.0, 0.0), sc], 4):
+                q = np.asarray(dist.ppf(pv, *th), float)
+                tol = 16 * np.spacing(np.maximum(np.abs(q), 1e-300))
+                if (q < L - tol).any() or (q > R + tol).any():
+                    k = int(np.argmax(np.maximum(L - q, q - R)))
+                    chk.report(f"parametric:{fam}:keyword", f"pba.{ctor}(scale={list(sc)}), call {step + 1} of this family with the scale as a keyword: member {th} has quantile {q[k]!r} "
+                               f"at level {pv[k]:.4f} outside the bounds [{L[k]!r}, {R[k]!r}]", dict(replay, member=th))
+                    break
     # the bespoke exponential constructor parameterised by the rate: oracle only (members sampled over the rate interval)
     import scipy.stats as sps
     for _ in range(6 if chk.tier == "quick" else 40):
